@@ -15,6 +15,8 @@ import (
 	"github.com/aergoio/aergo-actor/actor"
 	"github.com/aergoio/aergo/v2/chain"
 	cchain "github.com/aergoio/aergo/v2/consensus/chain"
+	"github.com/aergoio/aergo/v2/consensus/impl/dpos"
+	"github.com/aergoio/aergo/v2/consensus/impl/dpos/bp"
 	"github.com/aergoio/aergo/v2/state"
 	"github.com/aergoio/aergo/v2/types"
 	"github.com/aergoio/aergo/v2/types/message"
@@ -63,6 +65,14 @@ func (d *determDeadline) fire() {
 }
 
 func init() {
+	chain.VerifDetermNewStatus = func(cs *chain.ChainService) func(block *types.Block) {
+		// consensus/impl/dpos.New (dpos.go:120-150): the BP cluster of the chain DB and the status on top
+		cl, err := bp.NewCluster(cs.CDB())
+		if err != nil {
+			panic(err)
+		}
+		return dpos.NewStatus(cl, cs.CDB(), cs.SDB(), 0).Update
+	}
 	chain.VerifDetermGenerate = func(bi *types.BlockHeaderInfo, bs *state.BlockState, exec chain.TxExecFn,
 		txs []types.Transaction, onTx func(tx types.Transaction, err error), deadline *int) (*types.Block, error) {
 		ctx := &determDeadline{done: make(chan struct{})}
